@@ -53,6 +53,8 @@ def parseOp : List String → Option Op
   | ["recent", t] => t.toNat?.map .recent
   | ["recv", r] => r.toNat?.map .recv
   | ["tick", r, now, ok] => do some (.tick (← r.toNat?) (← now.toNat?) (← parseBool? ok))
+  -- 5th token: which answer the fake ClickHouse gave (the model only needs whether the INSERT counts as successful)
+  | ["tick", r, now, ok, _kind] => do some (.tick (← r.toNat?) (← now.toNat?) (← parseBool? ok))
   | ["resp", r] => r.toNat?.map .resp
   | ["drop", r] => r.toNat?.map .drop
   | ["pop", now] => now.toNat?.map .pop
